@@ -672,6 +672,16 @@ def replay(ctx, path):
         except Exception as e:  # noqa: BLE001
             print("raises", repr(e))
             return 1
+    if key == "wigner_D/unbatched-small-angle-torch-matrix_exp":
+        torch.set_default_dtype(torch.float64)
+        l, th = rep["l"], rep["theta"]
+        args = [torch.tensor(th if rep["angle"] == w else 0.0) for w in ("alpha", "beta", "gamma")]
+        D1 = o3.wigner_D(l, *args)
+        D2 = o3.wigner_D(l, *[torch.stack([x, x]) for x in args])[0]
+        e = float((D1 - D2).abs().max())
+        print(f"wigner_D({l}, ...{rep['angle']}={th}) unbatched vs the same angles in a batch of 2: |Δ| = {e:.3e}; "
+              f"orthogonality defect unbatched {float((D1 @ D1.T - torch.eye(2 * l + 1)).abs().max()):.3e}")
+        return 1 if e > TOL64 else 0
     if key == "Irrep.D_from_matrix/near-polar-stratum-acos":
         torch.set_default_dtype(torch.float64)
         w = rep["float64"]
